@@ -61,8 +61,26 @@ def _work(args):
         members = members[:pos] + [aud] + members[pos:]
         idents = idents[:pos] + ["aud"] + idents[pos:]
         texts = texts[:pos] + ['~ id: aud ~ $data[*][ print("seen $.csvpath.line_number", "audit") ' + rng.choice(["", 'print.once("second stream", "errs") '])  + "]"] + texts[pos:]
+    # a member that shuts the run down with stop_all() while other members follow it: under next_paths (the serial method that looks
+    # at the signal) the later members never start - no directory, no result - and the run is still completed; the run manifest and
+    # the results manager then speak about the members that ran (Archive!SignalStopAll, Cancelled)
+    halting = rng.random() < 0.3
+    if halting:
+        cfg = dict(members[0]["cfg"])
+        cfg.update({"noRun": False, "noMatches": False, "keepUnmatched": False})
+        hm = {"prog": {"scan": lang.scan("all"), "comps": [], "initVars": [], "meta": []}, "cfg": cfg}
+        pos = rng.randint(0, len(members) - 1)          # never the final member
+        at = rng.choice([None, 0, 1, max(0, len(records) - 1)])
+        body = "stop_all()" if at is None else f"line_number() == {at} -> stop_all()"
+        members = members[:pos] + [hm] + members[pos:]
+        idents = idents[:pos] + ["halt"] + idents[pos:]
+        texts = texts[:pos] + [f"~ id: halt ~ $data[*][ {body} ]"] + texts[pos:]
     methods = list(pharness.METHODS)
-    if quick:
+    if halting:
+        # member-major methods only: what a line-major run does with the signal is GroupRun.tla's business (judged by C04), and a member
+        # that a sibling's stop_all() stops before it has considered a single record has no documented value for `completed`
+        methods = [m for m in methods if m in archiverun.SERIAL]
+    elif quick:
         methods = rng.sample(methods, 3)
     # the dialect of the run: data.csv / unmatched.csv parse back with it
     dia = rng.choice([{}, {}, {"delimiter": ";", "quotechar": '"'}, {"delimiter": "|", "quotechar": "'"}])
@@ -110,13 +128,17 @@ def validate(recs, rep, name="ArchiveTrace"):
 
 
 def lifecycle_mc(rep):
-    for kind in ("serial", "byline"):
-        name = f"_gen_MC_Archive_{kind}.cfg"
+    # serial runs with a method that looks at stop_all() before it starts a member (next_paths) and without (IMPL: collect_paths,
+    # fast_forward_paths), and breadth-first runs
+    for kind, honours in (("serial", True), ("serial", False), ("byline", False)):
+        tag = kind + ("_halt" if honours else "")
+        name = f"_gen_MC_Archive_{tag}.cfg"
         with open(os.path.join(common.VERIF, "spec", name), "w") as f:
-            f.write(f'CONSTANTS\n  NMem = 3\n  Kind = "{kind}"\nINIT AInit\nNEXT ANext\nINVARIANT CompleteMeansAllSaved\n'
-                    "INVARIANT SaveAfterAdd\nINVARIANT AbortLeavesRecords\nPROPERTY AbortedStaysAborted\nCHECK_DEADLOCK FALSE\n")
-        r = require_ok(run_tlc("Archive", name, timeout=300, keep_stdout=False), f"MC_Archive {kind}")
-        rep.add_tlc(f"Archive lifecycle, 3 members, {kind}", r)
+            f.write(f'CONSTANTS\n  NMem = 3\n  Kind = "{kind}"\n  Honours = {"TRUE" if honours else "FALSE"}\nINIT AInit\nNEXT ANext\n'
+                    "INVARIANT CompleteMeansAllSaved\nINVARIANT SaveAfterAdd\nINVARIANT AbortLeavesRecords\nINVARIANT CancelledIsSuffix\n"
+                    "INVARIANT CancelledNeverAdded\nINVARIANT EveryRunEnds\nPROPERTY AbortedStaysAborted\nCHECK_DEADLOCK FALSE\n")
+        r = require_ok(run_tlc("Archive", name, timeout=300, keep_stdout=False), f"MC_Archive {tag}")
+        rep.add_tlc(f"Archive lifecycle, 3 members, {kind}" + (", stop_all() honoured" if honours else ""), r)
         if r.invariant_violated:
             rep.violation({"kind": "spec", "invariant": r.invariant_violated})
             return False
@@ -158,7 +180,8 @@ def main(tier):
     rep.extra.update({"groups": n, "runs": len(recs), "out_of_model_groups": oom})
     rep.rule = ("groups of 1-4 generated csvpaths (with and without identity; unmatched-mode keep and return-mode no-matches on some) over a "
                 "generated file with extra cells containing quotes, delimiters and newlines; each run with "
-                + ("3 of the 6" if tier == "quick" else "all 6") + " run methods; runs end by stop, fail or exhaustion as the programs decide. "
+                + ("3 of the 6" if tier == "quick" else "all 6") + " run methods; runs end by stop, fail or exhaustion as the programs decide; in 30 % of the groups a non-final member raises "
+                "stop_all() (member-major methods; under next_paths the later members are cancelled). "
                 "non-trivial = distinct (group, method, file).")
     rep.assumptions = ["TLC; ArchiveTrace.tla", "printouts.txt is parsed by its '---- PRINTOUT:' section headers; a printed text with a line break is compared line by line",
                        "variables are compared after JSON coercion (the archive is JSON)"]
